@@ -222,3 +222,21 @@ func verif_StatsConn_Write(sc *StatsConn, p []byte) {
 	verif.Ensures(n == verif.RetInt(ev, 0) && err == verif.RetErr(ev, 1), "count_and_error_handed_on_together")
 	verif.Ensures(sc.totalWrite == w0+int64(n), "bytes_accounted")
 }
+
+// wrapQuicStream.Close (C01 "when an endpoint that has finished writing closes
+// ... the peer receives the complete stream followed by end-of-stream"; quic is
+// one of the control transports every tunnel runs over): closing a stream ends
+// the send direction in order - the stream's own Close, which sends what was
+// written followed by FIN - and never resets it (CancelWrite discards what the
+// peer has not consumed yet); only the receive direction is cancelled.
+//
+//verif:contract (*~/pkg/util/net.wrapQuicStream).Close
+//verif:props C01
+//verif:kinds post
+func verif_wrapQuicStream_Close(conn *wrapQuicStream) {
+	verif.ResetEvents()
+	err := conn.Close()
+	const ev = "io.Closer).Close"
+	verif.Ensures(verif.CallCount(ev) == 1 && verif.Same(verif.NthArg[any](ev, 0, 0), any(conn.Stream)) && err == verif.RetErr(ev, 0), "send_direction_of_the_wrapped_stream_closed_in_order_once")
+	verif.Ensures(!verif.Called("CancelWrite"), "written_bytes_never_discarded_by_a_reset")
+}
